@@ -5,6 +5,7 @@ import ast
 from .. import astq
 from .. import sym as S
 from ..dt import DT
+from ..report import MISSING
 from ..model import AnalysisError
 from ..symeval import SymEval
 from . import cli_common as cc
@@ -96,11 +97,11 @@ def dtype_out(ctx, R="R-C03-dtype-out"):
     ok = isinstance(body[0], ast.If) and "np.issubdtype(chunk.dtype, np.floating)" in astq.text(body[0].test) and astq.text(body[0].test).startswith("not ") and \
         isinstance(body[0].body[0], ast.Raise) and astq.raise_type(prog, pre, body[0].body[0]) == "ValueError"
     ctx.check(ok, R, pre, body[0], "non-floating input raises ValueError before any state is touched", "first statement of a new utterance is %s" % astq.text(body[0])[:80])
-    ok = len(body) > 1 and astq.text(body[1]).replace(" ", "") == "self._ret_dtype=chunk.dtype"
+    ok = len(body) > 1 and astq.eq_text(body[1], "self._ret_dtype=chunk.dtype")
     ctx.check(ok, R, pre, body[1] if len(body) > 1 else els[0], "the result dtype is that of the utterance's first chunk")
     st = els[0].body
-    ok = len(st) == 1 and isinstance(st[0], ast.If) and astq.text(st[0].test).replace(" ", "") == "chunk.dtype!=self._ret_dtype" and isinstance(st[0].body[0], ast.Raise)
-    ctx.check(ok, R, pre, st[0] if st else els[0], "a later chunk of another dtype is refused")
+    ok = len(st) == 1 and isinstance(st[0], ast.If) and astq.eq_text(st[0].test, "chunk.dtype!=self._ret_dtype") and isinstance(st[0].body[0], ast.Raise)
+    ctx.check(ok, R, pre, st[0] if st else MISSING(els[0]), "a later chunk of another dtype is refused")
     tags = _attr_tags(prog, c)
     tags["_ret_dtype"] = {"RET"}
     for name in ("compute_chunk", "finalize"):
@@ -170,12 +171,12 @@ def prep(ctx, R="R-C03-prep"):
     ctx.need(len(loops) == 1, R, "filter preparation loop not found")
     lp = loops[0]
     apps = [x for x in astq.calls_in(lp) if astq.attr_call(x, "append") and astq.text(x.func.value) == "self._filts"]
-    ok = len(apps) == 1 and astq.text(apps[0].args[0]).replace(" ", "") == "self._compute_dft(filt[:self._max_support])"
-    ctx.check(ok, R, init, apps[0] if apps else lp, "every filter is clamped to max_support and transformed by _compute_dft, in bank order",
+    ok = len(apps) == 1 and astq.eq_text(apps[0].args[0], "self._compute_dft(filt[:self._max_support])")
+    ctx.check(ok, R, init, apps[0] if apps else MISSING(lp), "every filter is clamped to max_support and transformed by _compute_dft, in bank order",
               "filter storage is %s" % (astq.text(apps[0]) if apps else None))
     gets = [x for x in astq.calls_in(lp) if astq.attr_call(x, "get_impulse_response")]
     ok = len(gets) == 1 and [astq.text(a) for a in gets[0].args] == ["filt_idx", "self._dft_size"]
-    ctx.check(ok, R, init, gets[0] if gets else lp, "impulse responses are requested at the DFT size")
+    ctx.check(ok, R, init, gets[0] if gets else MISSING(lp), "impulse responses are requested at the DFT size")
     for style, want in (("centered", "np.roll(filt,self._translation-mid_samp+1)"), ("causal", "np.roll(filt,self._translation)")):
         rolls = [n for n in ast.walk(lp) if isinstance(n, ast.Assign) and isinstance(n.value, ast.Call) and prog.qualify(init.module, n.value.func, init) == "numpy.roll"]
         pm = astq.parents(init)
@@ -191,7 +192,7 @@ def prep(ctx, R="R-C03-prep"):
         ctx.check(hit is not None and astq.text(hit.value).replace(" ", "") == want, R, init, hit if hit is not None else lp,
                   "%s style: filters are rolled by %s" % (style, want[len("np.roll(filt,"):-1]), "%s roll is %s" % (style, astq.text(hit.value) if hit is not None else None))
     mids = [n for n in ast.walk(lp) if isinstance(n, ast.Assign) and astq.is_name(n.targets[0], "mid_samp")]
-    ctx.check(len(mids) == 1 and astq.text(mids[0].value).replace(" ", "") == "(left_samp+right_samp)//2", R, init, mids[0] if mids else lp,
+    ctx.check(len(mids) == 1 and astq.eq_text(mids[0].value, "(left_samp+right_samp)//2"), R, init, mids[0] if mids else MISSING(lp),
               "the centre of a filter's support is (left + right) // 2")
     # energy impulse
     en = [n for n in init.body_nodes() if isinstance(n, ast.If) and astq.text(n.test) == "include_energy"]
@@ -204,11 +205,11 @@ def prep(ctx, R="R-C03-prep"):
     ok = "ifself._real:" in txt and "np.fft.rfft(dirac_filter)" in txt and "np.fft.fft(dirac_filter)" in txt
     ctx.check(ok, R, init, en[0], "the impulse is transformed with the same real/complex choice as the filters")
     w = [n for n in init.body_nodes() if isinstance(n, ast.Assign) and astq.is_name(n.targets[0], "window")]
-    ok = len(w) == 1 and astq.text(w[0].value).replace(" ", "") == "window_function.get_impulse_response(2*self._frame_shift)"
-    ctx.check(ok, R, init, w[0] if w else init.node, "the integration window has 2 x frame_shift samples")
+    ok = len(w) == 1 and astq.eq_text(w[0].value, "window_function.get_impulse_response(2*self._frame_shift)")
+    ctx.check(ok, R, init, w[0] if w else MISSING(init.node), "the integration window has 2 x frame_shift samples")
     ws = [n for n in init.body_nodes() if isinstance(n, ast.Assign) and astq.is_self_attr(n.targets[0], "self", "_window")]
-    ok = len(ws) == 1 and astq.text(ws[0].value).replace(" ", "") == "window.reshape(2,self._frame_shift)"
-    ctx.check(ok, R, init, ws[0] if ws else init.node, "the window is split into two halves of frame_shift samples")
+    ok = len(ws) == 1 and astq.eq_text(ws[0].value, "window.reshape(2,self._frame_shift)")
+    ctx.check(ok, R, init, ws[0] if ws else MISSING(init.node), "the window is split into two halves of frame_shift samples")
     ev = SymEval(prog, init, seed={"frame_style": "centered"}, rename={}).run()
     tr = ev.env.get("self._translation")
     ms = ev.env.get("self._max_support")
@@ -225,16 +226,16 @@ def logfloor(ctx, R="R-C03-logfloor"):
     for log in (True, False):
         ev = cc.body_eval(prog, f, f.node.body, seed={"self._log": log})
         # coeffs[:] = ...
-        st = [n for n in f.body_nodes() if isinstance(n, ast.Assign) and astq.text(n.targets[0]).replace(" ", "") == "coeffs[:]"]
+        st = [n for n in f.body_nodes() if isinstance(n, ast.Assign) and astq.eq_text(n.targets[0], "coeffs[:]")]
         ctx.need(st, R, "coefficient stores not found in SI _compute_frame")
         first = astq.text(st[0].value).replace(" ", "")
         ctx.check(first == "self._y_buf[0,0,:]+self._y_buf[1,1,:]", R, f, st[0], "a frame is first-half window x first block + second-half window x second block",
                   "frame accumulation is %s" % astq.text(st[0].value))
     logs = [n for n in st if "np.log" in astq.text(n.value)]
-    ok = len(logs) == 1 and astq.text(logs[0].value).replace(" ", "") == "np.log(np.maximum(coeffs,config.LOG_FLOOR_VALUE))"
+    ok = len(logs) == 1 and astq.eq_text(logs[0].value, "np.log(np.maximum(coeffs,config.LOG_FLOOR_VALUE))")
     pm = astq.parents(f)
     g = [astq.text(a.test) for a in astq.ancestors(pm, logs[0]) if isinstance(a, ast.If)] if logs else []
-    ctx.check(ok and g == ["self._log"], R, f, logs[0] if logs else f.node, "the log is floored at LOG_FLOOR_VALUE and taken only under use_log",
+    ctx.check(ok and g == ["self._log"], R, f, logs[0] if logs else MISSING(f.node), "the log is floored at LOG_FLOOR_VALUE and taken only under use_log",
               "log step is %s under %s" % (astq.text(logs[0].value) if logs else None, g))
     sh = [astq.text(n).replace(" ", "") for n in f.node.body if isinstance(n, (ast.Assign, ast.AugAssign))]
     ok = "self._y_buf[:-1]=self._y_buf[1:]" in sh and "self._y_buf[-1]=0" in sh and "self._y_rem-=self._frame_shift" in sh
